@@ -1,0 +1,10 @@
+//go:build go1.20
+// +build go1.20
+
+package cache
+
+// deleteEntry removes the entry only if it is still the one that was inspected,
+// an entry that was replaced concurrently is left alone.
+func (c *syncMap) deleteEntry(key, entry interface{}) bool {
+	return c.data.CompareAndDelete(key, entry)
+}
